@@ -227,8 +227,9 @@ def _check_body(ctx, res) -> None:
     # ---- R17.8 a write `obj.x = <value>` becomes `obj.set_x(<value>)`: the closing parenthesis belongs at the END of the
     # statement's LOGICAL line (the value may continue over several physical lines)
     gcm = idx.need_func("rope.refactor.encapsulate_field._FindChangesForModule.get_changed_module")
+    gcm_node = common.inlined(idx, gcm)  # the opening of the setter call may be a private step (`self._open_setter_call(occurrence)`): read in place
     ends, starts_ = set(), set()
-    for x in walk_local(gcm.node):
+    for x in walk_local(gcm_node):
         if isinstance(x, ast.Assign) and isinstance(x.value, ast.Call) and call_name(x.value) == "logical_line_in" \
                 and isinstance(x.targets[0], ast.Tuple) and len(x.targets[0].elts) == 2:
             a, b = x.targets[0].elts
@@ -237,7 +238,7 @@ def _check_body(ctx, res) -> None:
             if isinstance(b, ast.Name):
                 ends.add(b.id)
     n8 = 0
-    for x in walk_local(gcm.node):
+    for x in walk_local(gcm_node):
         if isinstance(x, ast.Assign) and any(is_self_attr(t, "last_set") for t in x.targets) and isinstance(x.value, ast.Call):
             n8 += 1
             arg = x.value.args[0] if x.value.args else None
@@ -297,10 +298,13 @@ def _augmented_write_grouping_rule(ctx, res) -> None:
         cfg = CFG(m.node)
         for nd in cfg.nodes:
             st = nd.ast
-            if nd.kind != "stmt" or not isinstance(st, ast.Assign) or not isinstance(st.value, ast.BinOp):
+            if nd.kind != "stmt" or not isinstance(st, (ast.Assign, ast.Return)) or not isinstance(st.value, ast.BinOp):
                 continue
             consts = [c.value for c in ast.walk(st.value) if isinstance(c, ast.Constant) and isinstance(c.value, str)]
-            if "(" in consts and ")" in consts and any(isinstance(t, ast.Name) and any(isinstance(y, ast.Name) and y.id == t.id for y in ast.walk(st.value)) for t in st.targets):
+            # `v = "(" + v + ")"`, or -- the wrapping as a helper of its own -- `return "(" + <parameter> + ")"`
+            rewraps = any(isinstance(t, ast.Name) and any(isinstance(y, ast.Name) and y.id == t.id for y in ast.walk(st.value)) for t in st.targets) \
+                if isinstance(st, ast.Assign) else any(isinstance(y, ast.Name) and y.id in param_names(m.node) for y in ast.walk(st.value))
+            if "(" in consts and ")" in consts and rewraps:
                 gs = cfg.guards(nd.id)
                 if any(pol and any((is_self_attr(y) and y.attr in flags) or (isinstance(y, ast.Name) and y.id in flags) or
                                    (isinstance(y, ast.Compare) and any(isinstance(c, ast.Constant) and c.value == "=" for c in y.comparators)) for y in ast.walk(t))
@@ -454,6 +458,17 @@ def _chained_assignment_rule(ctx, res) -> None:
         return isinstance(t, ast.Compare) and len(t.ops) == 1 and isinstance(t.ops[0], (ast.Eq, ast.NotEq)) \
             and any(isinstance(x, ast.Constant) and x.value == "=" for x in (t.left, t.comparators[0]))
 
+    # a flag that remembers the comparison (`self.is_augmented_set = assignment_type != "="`): flag -> the truth value that means "augmented"
+    def flag_key(t):
+        return f"self.{t.attr}" if is_self_attr(t) else (t.id if isinstance(t, ast.Name) else None)
+
+    aug_flags = {}
+    for a in ast.walk(fnode):
+        if isinstance(a, ast.Assign) and is_plain_test(a.value):
+            for t in a.targets:
+                if flag_key(t):
+                    aug_flags[flag_key(t)] = isinstance(a.value.ops[0], ast.NotEq)
+
     def is_target_count_test(t) -> bool:
         if isinstance(t, ast.Call) and is_self_attr(t.func) and t.func.attr in predicates:
             return True
@@ -462,7 +477,8 @@ def _chained_assignment_rule(ctx, res) -> None:
     n = 0
     for i, e in enumerate(emits):
         gs = cfg.guards(e.id)
-        augmented = any(is_plain_test(t) and (pol != isinstance(t.ops[0], ast.Eq)) for t, pol in gs)
+        augmented = any(is_plain_test(t) and (pol != isinstance(t.ops[0], ast.Eq)) for t, pol in gs) \
+            or any(flag_key(t) in aug_flags and pol == aug_flags[flag_key(t)] for t, pol in gs)
         if augmented:
             continue  # `a.x += 1` cannot be chained
         n += 1
@@ -483,3 +499,48 @@ def _chained_assignment_rule(ctx, res) -> None:
                 "`y = a.set_x(7)` (y is None afterwards), `a.x = y = 7` becomes `a.set_x(y = 7)` (TypeError), `a.x = b.x = 7` an unbalanced parenthesis; "
                 "a tuple assignment is refused, a chained one is not", function=f.qualname)
     res.floor("R17.16", "plain-write emissions", n, 1)
+    # (b) the statement that is examined is the WHOLE logical line of the write: where a predicate compares `<lo> <= node.lineno <= <hi>`,
+    # lo and hi are the two ends of `logical_line_in(...)` -- computed in the predicate, or handed to it by the caller.  The physical line
+    # of the field is not the start of the statement when the first target spans lines (`table[\n row, col\n] = item.value = ...`)
+    inl = fnode  # (the predicates are kept as calls there)
+
+    def line_ends(fn_node):
+        """name -> 0 | 1 for names bound by unpacking the result of logical_line_in"""
+        out = {}
+        for a in walk_local(fn_node):
+            if isinstance(a, ast.Assign) and isinstance(a.value, ast.Call) and call_name(a.value) == "logical_line_in" and isinstance(a.targets[0], ast.Tuple):
+                for i, e in enumerate(a.targets[0].elts[:2]):
+                    if isinstance(e, ast.Name):
+                        out[e.id] = i
+        return out
+
+    k = 0
+    for pname in sorted(predicates):
+        pm = cls.methods[pname]
+        own = line_ends(pm.node)
+        params = param_names(pm.node)
+        for c in ast.walk(pm.node):
+            if not (isinstance(c, ast.Compare) and len(c.ops) == 2 and all(isinstance(o, (ast.LtE, ast.Lt)) for o in c.ops)
+                    and isinstance(c.comparators[0], ast.Attribute) and c.comparators[0].attr == "lineno"):
+                continue
+            lo, hi = c.left, c.comparators[1]
+            for bound, want, what in ((lo, 0, "lower"), (hi, 1, "upper")):
+                k += 1
+                got = None
+                if isinstance(bound, ast.Name) and bound.id in own:
+                    got = own[bound.id]
+                elif isinstance(bound, ast.Name) and bound.id in params:
+                    # what the callers hand in
+                    pos = params.index(bound.id) - 1  # without self
+                    callers = [x for x in ast.walk(inl) if isinstance(x, ast.Call) and is_self_attr(x.func) and x.func.attr == pname]
+                    ends_ = line_ends(inl)
+                    vals = {ends_.get(x.args[pos].id) if pos < len(x.args) and isinstance(x.args[pos], ast.Name) else None for x in callers}
+                    got = vals.pop() if len(vals) == 1 else None
+                ok = got == want
+                res.add("R17.16", f"{pname}|{what}-bound-is-the-{'start' if want == 0 else 'end'}-of-the-logical-line", ok, f"{pm.unit.rel}:{c.lineno}",
+                        f"the {what} bound of the examined lines is the {'start' if want == 0 else 'end'} of the write's logical line" if ok else
+                        f"{pname}: the {what} bound `{ast.unparse(bound)}` of the lines examined for a chained assignment is not the "
+                        f"{'start' if want == 0 else 'end'} of the write's logical line (`logical_line_in(...)[{want}]`): with the field's own physical line as the lower bound, "
+                        "`table[\n    row, col\n] = item.value = item.value - 4` -- the statement starts two lines above the field -- is not recognised as chained and becomes "
+                        "`] = item.set_value(...)`: `table[row, col]` receives None", function=pm.qualname)
+    res.floor("R17.16", "bounds of the examined lines", k, 2)
